@@ -44,6 +44,10 @@ def _init_real():
 def _quiet():
     import logging
     logging.disable(logging.CRITICAL)
+    if not os.environ.get('VERIF_WORKER_STDERR'):
+        # worker chatter (e.g. "Exception ignored in __del__" under a RecursionError of the code under test);
+        # harness errors travel in the result records, not on stderr
+        sys.stderr = open(os.devnull, 'w')
 
 
 def _explore(args):
